@@ -8,6 +8,8 @@ from . import rel_common
 
 def case_of(params, model):
     c = dict(K=max(params.get("K", 3), 3), at=params.get("at", 2), maxcor=params.get("maxcor", 2))
+    if params.get("inplace"):
+        c["inplace"] = 1
     if params.get("eps_SY") is not None:
         from fractions import Fraction
         c["eps_SY"] = float(Fraction(params["eps_SY"]))
@@ -20,6 +22,7 @@ def main(tier, seed):
     jobs = [(I, dict(K=2, ls_mode="unit", ftol="sym", ftarget=1)), (I, dict(K=2, ls_mode="lean", ftol="sym")),
             (R, dict(K=2, ls_mode="unit", at=1)), (R, dict(K=3, ls_mode="unit", at=2, maxcor=2)), (R, dict(K=2, ls_mode="unit", at=0)), (R, dict(K=3, ls_mode="unit", at=3, maxcor=3)),
             (R, dict(K=3, ls_mode="unit", at=2, maxcor=2, eps_SY="1/4")), (R, dict(K=2, ls_mode="unit", at=0, ck_pairs=2, maxcor=2, eps_SY="1/4")),
+            (R, dict(K=3, ls_mode="unit", at=2, maxcor=2, inplace=1)), (R, dict(K=1, ls_mode="unit", at=0, ck_pairs=2, maxcor=2, inplace=1)),
             (R, dict(K=1, ls_mode="unit", at=0, ck_pairs=2, maxcor=2)), (R, dict(K=2, ls_mode="unit", at=0, ck_pairs=1, maxcor=2))]
     if tier != "quick":
         jobs += [(I, dict(K=3, ls_mode="unit", ftol="sym", ftarget=1)), (R, dict(K=3, ls_mode="unit", at=1, maxcor=2)),
